@@ -482,6 +482,74 @@ fn peek_section(cx: &mut Cx)
 	cx.report.hit_n("look-ahead scripts", n as u64 + 8);
 }
 
+// very long runs of consecutive comments (`deep line|block <n>`): tokenizer and parser on a thread with a 1 MiB stack. A build in
+// which skipping a comment costs a stack frame dies of stack overflow, which no catch_unwind sees: the case runs in a CHILD process
+// (this executable in replay mode) and its way of ending is observed.
+fn deep_text(kind: &str, n: usize) -> Vec<u8>
+{
+	let mut t = Vec::with_capacity(n * 8 + 16);
+	for _ in 0..n {t.extend_from_slice(if kind == "line" {b"// c\n"} else {b"/* c */"});}
+	t.extend_from_slice(b" x: NOP;");
+	t
+}
+
+fn deep_direct(cx: &mut Cx, kind: &str, n: usize)
+{
+	let input = format!("deep {kind} {n}");
+	let text = deep_text(kind, n);
+	let h = std::thread::Builder::new().stack_size(1 << 20).spawn(move ||
+	{
+		guarded(||
+		{
+			let toks: Vec<_> = Tokenizer::new(&text).collect();
+			let els = trion::text::parse::Parser::new(&text).filter(|e| e.is_ok()).count();
+			(toks.len(), toks.iter().all(|t| t.is_ok()), toks.first().map(|t| t.as_ref().map(|t| (t.line, t.col)).unwrap_or((0, 0))), els)
+		})
+	}).unwrap();
+	cx.report.case(Some(&input));
+	match h.join()
+	{
+		Ok(Ok((ntok, all_ok, first, els))) =>
+		{
+			let want_first = if kind == "line" {(n as u32 + 1, 2)} else {(1, 7 * n as u32 + 2)};
+			if ntok != 4 || !all_ok || els != 2 || first != Some(want_first)
+			{
+				cx.report.oracle_fail(input, format!("{n} consecutive comments followed by `x: NOP;`: {ntok} tokens (all ok: {all_ok}), first at {first:?} (expected {want_first:?}), {els} statements"));
+			}
+		},
+		Ok(Err(p)) => cx.report.oracle_fail(input, format!("panic: {p}")),
+		Err(_) => cx.report.oracle_fail(input, "the thread died"),
+	}
+}
+
+fn deep_case(cx: &mut Cx, kind: &str, n: usize)
+{
+	if std::env::var("TRION_DEEP_CHILD").is_ok() {deep_direct(cx, kind, n); return;}
+	let input = format!("deep {kind} {n}");
+	let exe = std::env::current_exe().expect("own executable");
+	let rep = cx.work.join(format!("deep-{kind}.json"));
+	let out = std::process::Command::new(exe).args(["replay", "C10", &input]).arg(&rep).arg(cx.work.join("deep-child")).env("TRION_DEEP_CHILD", "1").output();
+	cx.report.case(Some(&input));
+	cx.report.hit(&format!("{n} consecutive {kind} comments on a 1 MiB stack"));
+	match out
+	{
+		Err(e) => cx.report.notes.push(format!("could not start the child for `{input}`: {e}")),
+		Ok(o) =>
+		{
+			use std::os::unix::process::ExitStatusExt;
+			if let Some(sig) = o.status.signal()
+			{
+				cx.report.oracle_fail(input, format!("tokenizing / parsing {n} consecutive {kind} comments on a thread with a 1 MiB stack was killed by signal {sig} (stack overflow: comment skipping recurses)"));
+			}
+			else if !o.status.success()
+			{
+				let what = std::fs::read_to_string(&rep).ok().and_then(|t| t.split("\"what\": ").nth(1).map(|w| w.chars().take(300).collect::<String>())).unwrap_or_default();
+				cx.report.oracle_fail(input, format!("child run failed (status {:?}): {what}", o.status.code()));
+			}
+		},
+	}
+}
+
 fn run_c10(cx: &mut Cx)
 {
 	cx.report.rule = "exhaustive: every string of up to 4 (quick) / 5 (thorough) symbols over the 22-symbol alphabet \
@@ -499,6 +567,7 @@ tokenizer error implies parser error. non-trivial = at least one token produced;
 				let reply = cx.model.ask(&format!("lex tok {}", hex(&bytes)));
 				c10_single(cx, &bytes, &reply);
 			},
+			["deep", kind @ ("line" | "block"), n] if n.parse::<usize>().is_ok() => deep_case(cx, kind, n.parse().unwrap()),
 			["peek", h, script] if unhex(h).is_some() && script.chars().all(|c| c == 'n' || c == 'p' || c.is_ascii_digit()) =>
 			{
 				check_peek(cx, &unhex(h).unwrap(), script);
@@ -508,6 +577,7 @@ tokenizer error implies parser error. non-trivial = at least one token produced;
 		return;
 	}
 	peek_section(cx);
+	for kind in ["line", "block"] {deep_case(cx, kind, 200_000);}
 	let max_len = if cx.thorough() {5} else {4};
 	for len in 0..=max_len
 	{
@@ -707,6 +777,129 @@ fn random_scalar(rng: &mut Rng, min: u32) -> char
 	}
 }
 
+// sequences of literals in ONE input (`seq <hex> <expected,…>`, expected = `s<hex contents>` | `n<value>`): each literal yields exactly
+// its own contents, whatever came before it (escaped after plain, plain after escaped, empty strings in between)
+fn seq_check(cx: &mut Cx, bytes: &[u8], want: &[String], reply: &str)
+{
+	let input = format!("seq {} {}", hex(bytes), want.join(","));
+	let lx = real_lex(bytes);
+	cx.report.case(Some(&lx.canon));
+	cx.report.hit("literal sequence");
+	cx.report.compare("model.lex.tokens", &input, reply, &lx.canon);
+	if let Some(m) = &lx.panic {cx.report.oracle_fail(input, format!("tokenizer panics: {m}")); return;}
+	let got: Vec<String> = lx.toks.iter().map(|t| match t.kind {"str" => format!("s{}", t.payload), "num" => format!("n{}", t.payload), k => format!("?{k}")}).collect();
+	if lx.err.is_some() || got != want
+	{
+		let k = got.iter().zip(want.iter()).position(|(a, b)| a != b).unwrap_or(got.len().min(want.len()));
+		cx.report.oracle_fail(input, format!("literal {} of the sequence must yield {:?}, the tokenizer yields {:?} (error: {:?})", k + 1, want.get(k), got.get(k), lx.err));
+	}
+}
+
+fn char_literal(rng: &mut Rng) -> (Vec<u8>, u32)
+{
+	match rng.below(3)
+	{
+		0 => {let (src, c): (&[u8], u32) = *rng.pick(&[(&b"'\\n'"[..], 10u32), (b"'\\t'", 9), (b"'\\r'", 13), (b"'\\\\'", 92), (b"'\\''", 39), (b"'\\\"'", 34)]); (src.to_vec(), c)},
+		_ => loop
+		{
+			let c = if rng.chance(1, 2) {rng.range(32, 126) as u8 as char} else {random_scalar(rng, 0x80)};
+			if c != '\'' && c != '\\' {let mut v = vec![b'\'']; v.extend_from_slice(&utf8(c)); v.push(b'\''); return (v, c as u32);}
+		},
+	}
+}
+
+fn literal_sequences(cx: &mut Cx, rng: &mut Rng)
+{
+	let n = if cx.thorough() {200_000} else {6_000};
+	let mut cases: Vec<(Vec<u8>, Vec<String>)> = Vec::new();
+	// escaped / plain / empty in every order of two and three
+	let kinds: [(&[u8], &str); 5] = [(b"\"a\\n\"", "s610a"), (b"\"b\"", "s62"), (b"\"\"", "s-"), (b"\"\\u{41}\\\\\"", "s415c"), (b"'\\n'", "n10")];
+	for a in kinds {for b in kinds {cases.push(([a.0, b" ", b.0].concat(), vec![a.1.to_owned(), b.1.to_owned()]));
+		for c in kinds {cases.push(([a.0, b",", b.0, b"\n", c.0].concat(), vec![a.1.to_owned(), "?sep".to_owned(), b.1.to_owned(), c.1.to_owned()]));}}}
+	for _ in 0..n
+	{
+		let k = 2 + rng.below(4);
+		let (mut text, mut want) = (Vec::new(), Vec::new());
+		for j in 0..k
+		{
+			if j > 0 {text.extend_from_slice(*rng.pick(&[&b" "[..], b"\n", b"\t", b" /* \"x\\n\" */ ", b" // 'q'\n", b"  "]));}
+			if rng.chance(1, 4) {let (t, v) = char_literal(rng); text.extend_from_slice(&t); want.push(format!("n{v}"));}
+			else
+			{
+				// escape-free, escaped-only, mixed, empty
+				let pieces = match rng.below(5) {0 => 0, 1 => 1, _ => 1 + rng.below(6)};
+				let plain_only = rng.chance(1, 3);
+				let mut contents = Vec::new();
+				text.push(b'"');
+				for _ in 0..pieces
+				{
+					let (t, c) = loop {let p = string_piece(rng); if !plain_only || p.0 == p.1 {break p;}};
+					text.extend_from_slice(&t);
+					contents.extend_from_slice(&c);
+				}
+				text.push(b'"');
+				want.push(format!("s{}", hex(&contents)));
+			}
+		}
+		cases.push((text, want));
+	}
+	for chunk in cases.chunks(8192)
+	{
+		let lines: Vec<String> = chunk.iter().map(|(t, _)| format!("lex tok {}", hex(t))).collect();
+		let replies = cx.model.ask_many(&lines);
+		for ((t, w), r) in chunk.iter().zip(replies.iter())
+		{
+			// the fixed triples hold a `,` token between the first two literals
+			if w.iter().any(|x| x == "?sep") {let w2: Vec<String> = w.iter().map(|x| if x == "?sep" {"?sep".to_owned()} else {x.clone()}).collect(); seq_check(cx, t, &w2, r);}
+			else {seq_check(cx, t, w, r);}
+		}
+	}
+}
+
+/// the magnitude 2^63 is no literal, whatever stands before it (`ctx <hex> <tokens before the literal>`): the tokens before it are
+/// produced, then the error; nothing — in particular no number — is produced for it
+fn ctx_check(cx: &mut Cx, bytes: &[u8], before: usize, reply: &str)
+{
+	let input = format!("ctx {} {before}", hex(bytes));
+	let lx = real_lex(bytes);
+	cx.report.case(None);
+	cx.report.hit("2^63 in context");
+	cx.report.compare("model.lex.tokens", &input, reply, &lx.canon);
+	if let Some(m) = &lx.panic {cx.report.oracle_fail(input, format!("tokenizer panics: {m}")); return;}
+	if lx.err.is_none() || lx.toks.len() != before
+	{
+		cx.report.oracle_fail(input, format!("the literal 2^63 behind {before} other token(s) must be rejected (it does not fit a signed 64-bit integer); tokenizer yields: {}", lx.canon));
+	}
+}
+
+fn two_pow_63_contexts(cx: &mut Cx, rng: &mut Rng)
+{
+	let mut cases: Vec<(Vec<u8>, usize)> = Vec::new();
+	let prefixes: [(&str, usize); 22] = [("", 0), ("-", 1), ("- ", 1), ("-\t/* c */", 1), ("--", 2), ("- -", 2), ("x -", 2), ("x - ", 2), ("1 -", 2), ("0 -", 2), ("-1 -", 3), ("-1 - ", 3),
+		("-5-", 3), ("(", 1), ("(-", 2), (",", 1), (", -", 2), ("+", 1), ("*", 1), ("!", 1), ("<<", 1), ("-9223372036854775807 -", 3)];
+	for (pre, before) in prefixes
+	{
+		for radix in [2u32, 8, 10, 16]
+		{
+			for zeros in [0usize, 1, 3]
+			{
+				for case in 0..2u8
+				{
+					let lit = int_literal(1u128 << 63, radix, case, zeros, rng);
+					let mut t = pre.as_bytes().to_vec();
+					t.extend_from_slice(&lit);
+					cases.push((t.clone(), before));
+					t.extend_from_slice(b" % 10;");
+					cases.push((t, before));
+				}
+			}
+		}
+	}
+	let lines: Vec<String> = cases.iter().map(|(t, _)| format!("lex tok {}", hex(t))).collect();
+	let replies = cx.model.ask_many(&lines);
+	for ((t, b), r) in cases.iter().zip(replies.iter()) {ctx_check(cx, t, *b, r);}
+}
+
 fn run_c11(cx: &mut Cx)
 {
 	cx.report.rule = "integers: every n within 2^12 of 0, 2^31, 2^32, 2^63 (below and above) in radix 2, 8, 10, 16, lower / upper / mixed digit case, \
@@ -723,11 +916,25 @@ non-trivial = accepted literal; distinct = distinct canonical token streams".to_
 				let reply = cx.model.ask(&format!("lex tok {}", hex(&bytes)));
 				c11_check(cx, "replay", &bytes, &Expect::parse(w).unwrap(), &reply);
 			},
+			["seq", h, w] if unhex(h).is_some() =>
+			{
+				let bytes = unhex(h).unwrap();
+				let reply = cx.model.ask(&format!("lex tok {}", hex(&bytes)));
+				seq_check(cx, &bytes, &w.split(',').map(str::to_owned).collect::<Vec<_>>(), &reply);
+			},
+			["ctx", h, n] if unhex(h).is_some() && n.parse::<usize>().is_ok() =>
+			{
+				let bytes = unhex(h).unwrap();
+				let reply = cx.model.ask(&format!("lex tok {}", hex(&bytes)));
+				ctx_check(cx, &bytes, n.parse().unwrap(), &reply);
+			},
 			_ => cx.report.oracle_fail(input.clone(), "unrecognised replay input"),
 		}
 		return;
 	}
 	let mut rng = cx.rng.fork();
+	literal_sequences(cx, &mut rng);
+	two_pow_63_contexts(cx, &mut rng);
 
 	// integers around the boundaries
 	let mut b = Batch{class: "integer literal", cases: Vec::new()};
@@ -993,6 +1200,93 @@ fn push_sep(text: &mut Vec<u8>, prev: &str, sep: &(Vec<u8>, bool))
 	text.extend_from_slice(&sep.0);
 }
 
+// clones (`clone <hex> <k> <p>`): a `Tokenizer` / `Parser` cloned after `k` items (and `p` tokens of look-ahead) reports, from
+// there on, exactly the items the original reports — positions included
+fn parser_items(p: &mut trion::text::parse::Parser, cap: usize) -> Vec<String>
+{
+	use trion::text::parse::ElementValue;
+	let mut out = Vec::new();
+	for el in p.by_ref().take(cap)
+	{
+		match el
+		{
+			Ok(e) => out.push(format!("{} {} {}", e.line, e.col, match &e.value
+			{
+				ElementValue::Label(n) => format!("L {}", hex(n.as_bytes())),
+				ElementValue::Directive{name, args} => format!("D {} {}", hex(name.as_bytes()), args.len()),
+				ElementValue::Instruction{name, args} => format!("I {} {}", hex(name.as_bytes()), args.len()),
+			})),
+			Err(e) => {out.push(format!("E {} {}", e.line, e.col)); break;},
+		}
+	}
+	out
+}
+
+fn check_clone(cx: &mut Cx, bytes: &[u8], k: usize, p: usize)
+{
+	let input = format!("clone {} {k} {p}", hex(bytes));
+	let r = guarded(||
+	{
+		let cap = bytes.len() + 2;
+		// tokenizer
+		let mut tk = Tokenizer::new(bytes);
+		for _ in 0..k {if tk.next().is_none() {break;}}
+		if p == 1 {let _ = tk.peek();}
+		if p > 1 {let _ = tk.peek_nth(p); let _ = tk.peek();}
+		let mut copy = tk.clone();
+		let pos_same = (copy.get_line(), copy.get_column()) == (tk.get_line(), tk.get_column());
+		let drain = |t: &mut Tokenizer| -> Vec<String>
+		{
+			let mut v = Vec::new();
+			for x in t.by_ref().take(cap) {let e = x.is_err(); v.push(show_item(Some(x.as_ref()))); if e {break;}}
+			v.push(format!("end {} {}", t.get_line(), t.get_column()));
+			v
+		};
+		let (a, b) = (drain(&mut tk), drain(&mut copy));
+		// parser
+		let mut pa = trion::text::parse::Parser::new(bytes);
+		let _ = parser_items(&mut pa, k);
+		let mut pc = pa.clone();
+		let (c, d) = (parser_items(&mut pa, cap), parser_items(&mut pc, cap));
+		(pos_same, a, b, c, d)
+	});
+	cx.report.case(Some(&input));
+	cx.report.hit("clone of tokenizer and parser");
+	match r
+	{
+		Err(m) => cx.report.oracle_fail(input, format!("panic: {m}")),
+		Ok((pos_same, a, b, c, d)) =>
+		{
+			if !pos_same {cx.report.oracle_fail(input.clone(), "the clone of the tokenizer reports another current line/column than the original");}
+			if a != b
+			{
+				let i = a.iter().zip(b.iter()).position(|(x, y)| x != y).unwrap_or(a.len().min(b.len()));
+				cx.report.oracle_fail(input.clone(), format!("after {k} tokens the original continues with {:?}, its clone with {:?} (item {i} after the clone)", a.get(i), b.get(i)));
+			}
+			if c != d
+			{
+				let i = c.iter().zip(d.iter()).position(|(x, y)| x != y).unwrap_or(c.len().min(d.len()));
+				cx.report.oracle_fail(input, format!("after {k} statements the original parser continues with {:?}, its clone with {:?}", c.get(i), d.get(i)));
+			}
+		},
+	}
+}
+
+fn clone_section(cx: &mut Cx, rng: &mut Rng)
+{
+	let fixed: [&[u8]; 5] = [b"start:\n\tMOVS R0, 1; // c\nloop: .du8 \"s;\\n\", 2;\n  B loop;\n",
+		"a: /* \u{e9}\u{20ac}\n \u{1F600} */ NOP; b:\r\n\tNOP;".as_bytes(), b".dstr \"multi\nline\"; x: .du32 'q' + 1;\n\n\nend:",
+		b"x: y: z:\nNOP;NOP;\n\tNOP", b"MOVS R0, (1 +\n 2) * 3;\n?"];
+	for f in fixed {for k in 0..9 {for p in 0..3 {check_clone(cx, f, k, p);}}}
+	let n = if cx.thorough() {40_000} else {6_000};
+	for _ in 0..n
+	{
+		let bytes = random_input(rng);
+		let bytes = if bytes.len() > 120 {bytes[..120].to_vec()} else {bytes};
+		check_clone(cx, &bytes, rng.below(10) as usize, rng.below(4) as usize);
+	}
+}
+
 fn run_c12(cx: &mut Cx)
 {
 	cx.report.rule = "every ordered pair of token classes (41 x 41: all punctuation, four radices, character literals incl. multi-byte, identifiers, \
@@ -1011,6 +1305,10 @@ end position; the spec Pos.of is compared with that oracle too. non-trivial = ev
 				let reply = cx.model.ask(&format!("lex tok {}", hex(&bytes)));
 				c12_check(cx, "replay", &bytes, &placed, &reply);
 			},
+			["clone", h, k, p] if unhex(h).is_some() && k.parse::<usize>().is_ok() && p.parse::<usize>().is_ok() =>
+			{
+				check_clone(cx, &unhex(h).unwrap(), k.parse().unwrap(), p.parse().unwrap());
+			},
 			_ => cx.report.oracle_fail(input.clone(), "unrecognised replay input"),
 		}
 		return;
@@ -1018,6 +1316,7 @@ end position; the spec Pos.of is compared with that oracle too. non-trivial = ev
 	let classes = token_classes();
 	let atoms = separator_atoms();
 	let mut rng = cx.rng.fork();
+	clone_section(cx, &mut rng);
 
 	let mut b = PosBatch{class: "token pair x separator", cases: Vec::new()};
 	for (ta, ka) in classes.iter()
